@@ -197,6 +197,18 @@ Definition fit (levels : list dict) (col : list val) (mfd : Z * Z) (drop : bool)
     do st <- fit_levels mf n (c_levels c) filled g ;
     Ok (Fitted (snd st) (labels_per_values (snd st))).
 
+(* ChainedDiscretizer(..., values_orders={feature: l}) with a plain list l: every value of l must be
+   known to the hierarchy (AssertionError otherwise); the known values missing from l are appended
+   and the whole is re-sorted by known_values, so a consistent l changes nothing *)
+Definition fit_with_order (vo : option (list val)) (levels : list dict) (col : list val)
+                          (mfd : Z * Z) (drop : bool) : res outcome :=
+  match vo with
+  | None => fit levels col mfd drop
+  | Some l =>
+      do c <- init levels ;
+      if forallb (fun v => mem v (c_known c)) l then fit levels col mfd drop else AssertErr
+  end.
+
 (* value -> leader map read off content (what the harness observes) *)
 Definition content_map (g : gl) : vmap :=
   flat_map (fun kv => map (fun v => (v, fst kv)) (snd kv)) (content g).
